@@ -927,6 +927,54 @@ def sib(ctx: Ctx, rep: Report) -> None:
         'argument tuple they were built from (results would come back in '
         'the wrong positions)', key='slot-index',
     )
+    # ... and the mailbox waits for exactly as many results as tasks are
+    # sent: its size is the length of the very sequence the tasks are
+    # enumerated from (zip() may have shortened it below len(args[0]))
+    mg = ctx.cfg(m)
+    nb = [(nd, c) for nd in mg.nodes for c in nd.calls()
+          if norm(c.func) == 'WorkerMailbox.new_mailbox']
+    seq = None
+    if comp is not None and len(comp.generators) == 1:
+        it = comp.generators[0].iter
+        if isinstance(it, ast.Call) and norm(it.func) == 'enumerate' and (
+                it.args):
+            seq = norm(it.args[0])
+    ok = len(nb) == 1 and seq is not None and len(nb[0][1].args) == 1 and norm(
+        valnum.subst(ctx, m, nb[0][0], nb[0][1].args[0])) == f'len({seq})'
+    rep.count()
+    rep.check(
+        ok, S, 'Worker.map:slots', m.path, m.lineno,
+        'the new mailbox has one slot per task sent',
+        'the mailbox created by map() is not sized by the length of the '
+        f'sequence the tasks are built from (len({seq})): with argument '
+        'lists of different lengths it waits for results that no task will '
+        'ever send and the awaiting task never resumes', key='slot-count',
+    )
+    # a manager keeps a result from below only if the addressee is one of
+    # its own workers; anything else goes to its boss
+    hb = ctx.fn(R.MGR + '.handle_result_from_below')
+    gb = ctx.cfg(hb)
+    rep.seen(hb.qualname)
+    down = [nd for nd in gb.nodes if q.has_call(
+        'self.send_result_down', ['result'])(nd)]
+    mine = [t for t in gb.nodes if t.kind == 'test' and norm(
+        t.stmt.test) == 'self.is_my_worker(result.return_address.worker_id)']
+    ups = [gb.node_containing(x.node) for x in R.sends_in(hb, 'Manager')
+           if x.kind == 'RESULT' and x.via != 'down']
+    rep.count()
+    rep.check(
+        len(mine) == 1 and len(down) == 1 and gb.edge_dominates(
+            mine[0].id, 'true', down[0].id) and bool(ups) and all(
+            u is not None and gb.edge_dominates(mine[0].id, 'false', u.id)
+            for u in ups), S, 'Manager.handle_result_from_below', hb.path,
+        hb.lineno,
+        'a result from below goes down only to one of my workers, otherwise '
+        'up',
+        'Manager.handle_result_from_below does not route by '
+        'is_my_worker(result.return_address.worker_id): a result addressed '
+        'to a worker of another manager is sent down (send_result_down '
+        'raises "unmanaged worker") instead of up', key='route-below',
+    )
     s = ctx.fn(R.WORKER + '.submit')
     rt = [c for c in ast.walk(s.node) if isinstance(c, ast.Call)
           and norm(c.func) == 'RuntimeTask']
